@@ -74,7 +74,12 @@ void model_x_query(const char *server, const char *routing, const char *fmt,
     unsigned k = G.queries;
     G.seq++;
     G.queries++;
-    if (k < 4) {
+    if (k < 8) {
+        unsigned j; const char *u = NULL;
+        if (fmt[0] == 'C') u = a1;                     /* CHECK nick user ip host :real */
+        else if (fmt[0] == 'L' && fmt[5] == '2') u = a2;   /* LOGIN2 ip host user pw */
+        for (j = 0; j < 12; j++) G.query_user[k][j] = 0;
+        if (u) for (j = 0; j < 11 && u[j]; j++) G.query_user[k][j] = u[j];
         G.query_server[k] = server;
         G.query_routing[k] = routing;
         G.query_verb[k] = fmt[0] == 'C' ? 'C' : fmt[0] == 'M' ? 'M' : fmt[5] == '2' ? '2' : 'L';
